@@ -19,6 +19,23 @@ if [ ! -f "$B/.configured2" ]; then
   touch "$B/.configured2"
 fi
 ninja -C "$B" pika > "$B/ninja.log" 2>&1 || { tail -40 "$B/ninja.log"; exit 1; }
+# MPI build: the MPI polling module is rebuilt with plain memory accesses instrumented as well (hooks
+# __tsan_read*/__tsan_write* of libpmcrt: scheduling points where a spec's F-site table names them)
+if [ -n "$MPI" ]; then
+  OBJ=libs/pika/async_mpi/CMakeFiles/pika_async_mpi.dir/Unity/unity_0_cxx.cxx.o
+  # ninja must keep regarding the object as its own (same mtime), so the mtime is restored after the
+  # recompilation and the library is relinked by hand; .plain_instr remembers which object was replaced
+  if [ -f "$B/$OBJ" ] && [ "$(stat -c %y "$B/$OBJ")" != "$(cat "$B/.plain_instr" 2>/dev/null)" ]; then
+    CMD=$(ninja -C "$B" -t commands "$OBJ" | tail -1)
+    CMD=${CMD//-tsan-instrument-memory-accesses=0/-tsan-instrument-memory-accesses=1}
+    touch -r "$B/$OBJ" "$B/.plain_instr.ref"
+    (cd "$B" && eval "$CMD") > "$B/plain_instr.log" 2>&1 || { tail -20 "$B/plain_instr.log"; exit 1; }
+    touch -r "$B/.plain_instr.ref" "$B/$OBJ"
+    LINK=$(ninja -C "$B" -t commands pika | grep -- "-shared" | tail -1)
+    (cd "$B" && eval "$LINK") >> "$B/plain_instr.log" 2>&1 || { tail -20 "$B/plain_instr.log"; exit 1; }
+    stat -c %y "$B/$OBJ" > "$B/.plain_instr"
+  fi
+fi
 # F-site table of the library (regenerated whenever the library changed)
 LIB=$(readlink -f "$B"/lib/libpika*.so | head -1)
 if [ ! -f "$LIB.sites" ] || [ "$LIB" -nt "$LIB.sites" ]; then "$V/scripts/mksites.py" "$LIB" "$LIB.sites"; fi
